@@ -329,6 +329,24 @@ theorem gen_vec_split_off (c : Cfg) (v : VS) (at_ : Nat) (w : W) :
     have hd : decide (at_ ≤ v.len) = false := by simpa using hat
     simp [hd, hn]
 
+/-! ## `dedup_by_key`, `dedup`: `dedup_by` with a closure built from a key / from `PartialEq` -/
+
+theorem bind_ok_unit (r : VW × Outcome Unit) : (bindW r fun s x => (s, Outcome.ok x)) = r := by
+  obtain ⟨s, o⟩ := r
+  cases o <;> rfl
+
+/-- `dedup_by_key(key)` is `dedup_by(|a, b| key(a) == key(b))` -/
+theorem gen_vec_dedup_by_key (c : Cfg) (key : Elem → Nat) (s : VW) :
+    Gen.Fn.vec_dedup_by_key c key s = Gen.Fn.vec_dedup_by c (fun _ a b => some (key a == key b)) s := by
+  unfold Gen.Fn.vec_dedup_by_key
+  exact bind_ok_unit _
+
+/-- `dedup()` is `dedup_by(|a, b| a == b)` (equality of the elements' values) -/
+theorem gen_vec_dedup (c : Cfg) (s : VW) :
+    Gen.Fn.vec_dedup c s = Gen.Fn.vec_dedup_by c (fun _ a b => some (a.val == b.val)) s := by
+  unfold Gen.Fn.vec_dedup
+  exact bind_ok_unit _
+
 /-! ## one-line wrappers: `extend_from_slice`, `io::Write` -/
 
 /-- `extend_from_slice(other)` is `extend(other.iter().cloned())`: the model's `extend` over `It.cloned` -/
@@ -361,6 +379,8 @@ theorem gen_vec_io_flush (c : Cfg) (s : VW) : Gen.Fn.vec_io_flush c s = (s, .ok 
 
 #print axioms gen_vec_extend_from_slice_copy
 #print axioms gen_vec_extend_from_slice
+#print axioms gen_vec_dedup_by_key
+#print axioms gen_vec_dedup
 #print axioms gen_vec_append_whole
 #print axioms gen_vec_split_off
 #print axioms gen_vec_io_write
